@@ -534,7 +534,7 @@ def check_cost(case, ctx):
         x = M
         # the cost itself
         d = (M - D) if mask is None else (M - D)[mask]
-        ctx.require(abs(c - float(np.mean(d * d))) <= 1e-12 * max(1, abs(c)), 'mean_square_error:value', 'cost != mean((M-D)^2)')
+        ctx.within(abs(c - float(np.mean(d * d))), 1e-12 * max(1, abs(c)), 'mean_square_error:value', 'cost != mean((M-D)^2)')
     elif fn == 'nll':
         yy = r.uniform(0.05, 0.95, shape)
         yhat = float(r.uniform(0.1, 0.9)) if case['yhat_scalar'] else r.uniform(0.05, 0.95, shape)
